@@ -1937,6 +1937,8 @@ impl Context {
         if len == 0 {
             return (Arc::new(Value::None), unit!(), vec![]);
         }
+        // An item can open new basic blocks (`if`, `match`): remember the block too.
+        let alloc_block = self.get_ctxdata().current_bb;
         let alloc_insert_point = self.get_current_basicblock().0.len();
         let dst = self.gen_new_register();
         let mut states = vec![];
@@ -1950,7 +1952,7 @@ impl Context {
             states.extend(s);
             self.push_inst(Instruction::Store(ptr, v, elem_ty));
         }
-        self.get_current_basicblock().0.insert(
+        self.get_current_fn().body[alloc_block].0.insert(
             alloc_insert_point,
             (dst.clone(), Instruction::Alloc(alloc_ty)),
         );
